@@ -442,11 +442,14 @@ impl OwnerV3Helpers {
 				Ok(k) => k,
 				Err(_) => return,
 			};
-			let secp_inst = static_secp_instance();
-			let secp = secp_inst.lock();
-			let sk = match SecretKey::from_slice(&secp, &key_bytes) {
-				Ok(s) => s,
-				Err(_) => return,
+			let sk = {
+				// release the secp context before taking the mask lock
+				let secp_inst = static_secp_instance();
+				let secp = secp_inst.lock();
+				match SecretKey::from_slice(&secp, &key_bytes) {
+					Ok(s) => s,
+					Err(_) => return,
+				}
 			};
 
 			let mut shared_mask_ref = mask.lock();
